@@ -85,6 +85,12 @@ def radCol (nx ny k : Nat) : Nat :=
   let r := k % (6 * (ny - 1))
   r % 6 + 3 * (r / 6) + (if k < 6 * (ny - 1) then 0 else (nx - 1) * 3 * ny)
 
+/-- `ComputeNodes.setup`: entry `k < 2 · 3 ny` of the declared `rows`, `cols`, `val` of `d nodes / d mesh`
+(`rows = hstack(arange, arange)`, `cols = hstack(arange, arange + (nx − 1) · 3 ny)`, `val = [1 − w …, w …]`) -/
+def nodesRow (ny k : Nat) : Nat := k % (3 * ny)
+def nodesCol (nx ny k : Nat) : Nat := if k < 3 * ny then k else k - 3 * ny + (nx - 1) * (3 * ny)
+def nodesVal [One K] (ny : Nat) (w : K) (k : Nat) : K := if k < 3 * ny then 1 - w else w
+
 end
 end Glue
 end OAS
